@@ -70,9 +70,26 @@ impl Storage {
     ///
     /// This is a best-effort analysis as we cannot guarantee knowing if there
     /// have been overwrites between adjacent slots.
-    #[allow(clippy::missing_panics_doc)] // Panics are guarded
     #[must_use]
     pub fn load(&mut self, key: &RuntimeBoxedVal) -> RuntimeBoxedVal {
+        self.load_with_limit(key, None)
+    }
+
+    /// Loads the value at the provided `key` in the storage like [`Self::load`],
+    /// but ensures that the values it constructs around the `key` respect the
+    /// provided `value_size_limit` just like every other value that execution
+    /// produces.
+    ///
+    /// Both the placeholder for a never-written slot and the load wrapper
+    /// contain the key, so without the limit each load of a fresh key would more
+    /// than double the size of the result.
+    #[allow(clippy::missing_panics_doc)] // Panics are guarded
+    #[must_use]
+    pub fn load_with_limit(
+        &mut self,
+        key: &RuntimeBoxedVal,
+        value_size_limit: Option<usize>,
+    ) -> RuntimeBoxedVal {
         // First we need to work out which of the maps to read from.
         let target_map = match key.data() {
             RSVD::KnownData { .. } => &mut self.known_slots,
@@ -89,7 +106,7 @@ impl Storage {
                 0,
                 RSVD::UnwrittenStorageValue { key: key.clone() },
                 Provenance::NonWrittenStorage,
-                None,
+                value_size_limit,
             )]
         });
 
@@ -115,7 +132,7 @@ impl Storage {
                 }
             },
             most_recent.provenance(),
-            None,
+            value_size_limit,
         )
     }
 
